@@ -5,6 +5,9 @@ import (
 	"math"
 	"math/rand"
 
+	"github.com/sahandsafizadeh/qeep/tensor"
+	"qeepverif/internal/rt"
+
 	"qeepverif/internal/fw"
 	"qeepverif/internal/ref"
 )
@@ -54,6 +57,53 @@ func runC02(c *fw.Ctx) {
 		br := rand.New(rand.NewSource(c.Seed*7907 + 3))
 		for _, n := range []int{31, 32, 33, 64, 65, 129} {
 			shapes = append(shapes, [][]int{{n}, {1, n}, {n, 1}, {2, n}, {1, 1 + br.Intn(2), n}}[br.Intn(5)])
+		}
+	}
+
+	// the same tracked tensor as both operands: its gradient is the sum of both operand rules
+	for _, shape := range Shapes(0, 3, 3) {
+		for _, op := range []string{"add", "sub", "mul", "div", "dot", "matmul", "concat", "patch"} {
+			rank := len(shape)
+			if (op == "dot" || op == "concat" || op == "patch") && rank < 1 {
+				continue
+			}
+			if op == "matmul" && (rank < 2 || shape[rank-1] != shape[rank-2]) {
+				continue
+			}
+			shape, op := shape, op
+			c.Case(func(k *fw.K) {
+				x := Shuffled(k.Rng, Unique(k.Rng, shape, 0.2, 2))
+				in := ref.Instr{Op: op, In: []int{0, 0}}
+				if op == "concat" {
+					in.Dim = k.Rng.Intn(len(shape))
+				}
+				p := ref.Prog{{Op: "leaf", Shape: shape, Data: x.Data, Tracked: true}, in}
+				vals, err := p.Eval()
+				if err != nil {
+					k.Failf("harness: %v", err)
+					return
+				}
+				g := randG(k, vals[1].Shape)
+				p = append(p, ref.Instr{Op: "leaf", Shape: g.Shape, Data: g.Data}, ref.Instr{Op: "mul", In: []int{1, 2}})
+				vals, _ = p.Eval()
+				k.Case = c01case{Family: "one tracked tensor as both operands", Prog: p, Roots: []int{3}}
+				k.Key("same-object/%s/%s", op, shapeKey(shape))
+				k.Count("same_object_cases", 1)
+				var ts []tensor.Tensor
+				if pn := call(func() {
+					ts, err = rt.Run(p)
+					if err == nil {
+						err = tensor.BackPropagate(ts[3])
+					}
+				}); pn != nil || err != nil {
+					k.Failf("%s(x, x) on shape %v: panic=%v err=%v", op, shape, pn, err)
+					return
+				}
+				want, scale := p.GradS(vals, 3, nil, ref.RuleSum)
+				if msg := checkGradsScaled(ts, want, scale, fmt.Sprintf("%s(x, x) on shape %v", op, shape)); msg != "" {
+					k.Failf("%s", msg)
+				}
+			})
 		}
 	}
 
